@@ -8,7 +8,7 @@
 (*   1528-1591, transform_class(_member) 646-1115, transform_item 411-541.    *)
 (* A shape is a record [fam, ...]; the outcome is a set of diagnostic codes   *)
 (* ({} = emitted).                                                            *)
-EXTENDS Naturals, FiniteSets
+EXTENDS Naturals, FiniteSets, Sequences
 
 RET == "missing-explicit-return-type"
 TYP == "missing-explicit-type"
@@ -67,8 +67,41 @@ MiscCodes(m) ==
     [] m = "expando-call" -> {TYP}
     [] OTHER -> {}
 
+(***************************************************************************)
+(* Parameter lists (C11: signatures are carried over, apart from the       *)
+(* optional / default-parameter normalisation; C10: every parameter keeps  *)
+(* an explicit type).  ParamsOptionalStartIndex 2233-2268 and              *)
+(* handle_param_pat 1367-1509: a parameter with a default value becomes    *)
+(* `p?: T` when every parameter after it can be omitted by a caller, and   *)
+(* `p: T | undefined` otherwise.                                           *)
+(***************************************************************************)
+PKinds == {"req", "opt", "def", "defAny", "defInfer", "rest", "obj"}
+PCtx == {"fn", "method", "ctor", "arrow"}
+IsOptKind(k) == k \in {"opt", "def", "defAny", "defInfer", "rest"}
+\* as coded: the index of the first parameter of the trailing run of omittable parameters (0 = none)
+RECURSIVE OptStart(_, _, _)
+OptStart(ps, i, cur) == IF i > Len(ps) THEN cur
+                        ELSE OptStart(ps, i + 1, IF IsOptKind(ps[i]) THEN (IF cur = 0 THEN i ELSE cur) ELSE 0)
+OptionalAtCoded(ps, i) == LET st == OptStart(ps, 1, 0) IN st # 0 /\ i >= st
+\* declaratively: a caller may omit parameter i exactly when it may omit every later one as well
+OptionalAtDecl(ps, i) == \A j \in i..Len(ps) : IsOptKind(ps[j])
+BaseType(k) == CASE k \in {"req", "opt", "def"} -> "string" [] k = "defAny" -> "any" [] k = "defInfer" -> "number" [] k = "rest" -> "string[]" [] k = "obj" -> "Rec"
+EmitParam(ps, i) ==
+  LET k == ps[i] IN
+  IF k = "req" THEN [form |-> "ident", o |-> FALSE, t |-> BaseType(k)]
+  ELSE IF k = "opt" THEN [form |-> "ident", o |-> TRUE, t |-> BaseType(k)]
+  ELSE IF k = "rest" THEN [form |-> "rest", o |-> FALSE, t |-> BaseType(k)]
+  ELSE IF k = "obj" THEN [form |-> "object", o |-> FALSE, t |-> BaseType(k)]
+  ELSE IF OptionalAtCoded(ps, i) THEN [form |-> "ident", o |-> TRUE, t |-> BaseType(k)]
+  ELSE [form |-> "ident", o |-> FALSE, t |-> BaseType(k) \o "|undefined"]
+EmitSig(ps) == [i \in 1..Len(ps) |-> EmitParam(ps, i)]
+ParamSeqOk(ps) == /\ \A i \in 1..Len(ps) : ps[i] = "rest" => i = Len(ps)
+                  /\ \A i \in 1..Len(ps) : ps[i] = "opt" => \A j \in i..Len(ps) : IsOptKind(ps[j])    \* TS1016
+ParamSeqs(n) == { ps \in UNION { [1..k -> PKinds] : k \in 1..n } : ParamSeqOk(ps) }
+
 Shapes ==
-  [fam : {"fn"}, ret : {"ann", "none"}, body : Bodies, async : BOOLEAN, gen : BOOLEAN, param : ParamForms]
+  [fam : {"params"}, ctx : PCtx, ps : ParamSeqs(3)]
+  \cup [fam : {"fn"}, ret : {"ann", "none"}, body : Bodies, async : BOOLEAN, gen : BOOLEAN, param : ParamForms]
   \cup [fam : {"arrow"}, ret : {"ann", "none"}, body : ArrowBodies, async : BOOLEAN, param : {"typed", "untyped", "default-lit"}]
   \cup [fam : {"var"}, kind : {"const", "let"}, init : VarInits]
   \cup [fam : {"member"}, member : Members]
@@ -80,4 +113,5 @@ Outcome(s) ==
     [] s.fam = "var" -> VarCodes(s.init)
     [] s.fam = "member" -> MemberCodes(s.member)
     [] s.fam = "misc" -> MiscCodes(s.misc)
+    [] s.fam = "params" -> {}
 =============================================================================
